@@ -91,6 +91,12 @@ class Ctx(object):
         stuck = [(t - 1, m, n) for t, m, n in r.printed_tuples("STUCK")]
         self.traces += len(traces)
         self.events += sum(len(t) for t in traces)
+        # vacuity guard material: how often every kind of event was exercised
+        byop = self.extra.setdefault("events_by_op", {}).setdefault(module, {})
+        for t in traces:
+            for e in t:
+                k = e.get("op", "?") if isinstance(e, dict) else "?"
+                byop[k] = byop.get(k, 0) + 1
         self.tlc_runs.append({"module": module, "label": label or module, "states": r.distinct,
                               "transitions": r.generated, "traces": len(traces), "wall_s": round(r.wall, 2)})
         self.states += r.distinct
@@ -118,6 +124,13 @@ class Ctx(object):
                 return "known"
         self.violations.append({"clause": clause, "detail": detail, "replay": replay})
         return "violation"
+
+    def require_ops(self, module, ops):
+        """Every listed event kind must have been exercised, otherwise the run is vacuous (machinery failure)."""
+        seen = self.extra.get("events_by_op", {}).get(module, {})
+        missing = [o for o in ops if not seen.get(o)]
+        if missing:
+            raise tlc.MachineryError("vacuous run: %s never exercised %s" % (module, missing))
 
     def finish(self, rule, level_note=None):
         wall = time.time() - self.t0
